@@ -438,6 +438,35 @@ static void runChained(Ctx* c, size_t si, const RefDef& d, Loaded& A, const Filt
         joined.insert(joined.end(), data.begin(), data.end());
         findCheck(c, d, A.map.get(), ms, m, false, cs);
       }
+      // a single part asked for on its own, last part first, with OTHER input than the parts built just before (two
+      // clients writing the same chained message): every part depends on the definition and its own input only
+      if (allOk && P >= 2) {
+        for (size_t k = P; k-- > 1;) {
+          std::istringstream in(val2.input);
+          MasterSymbolString ms;
+          result_t r = m->prepareMaster(k, (symbol_t)SRC, SYN, UI_FIELD_SEPARATOR, &in, &ms);
+          R.transitions++; R.tracesValidated++;
+          Bytes b = msBytes(ms);
+          bool okPart = r == RESULT_OK && b.size() == rp2.masters[k].size();
+          if (okPart && d.shape->write) {
+            // compare the data bytes the statement fixes (ignored fields do not fix their byte)
+            size_t idl = d.ids[k].size(), off = 0;
+            for (size_t q = 0; q < k; q++) off += (size_t)d.partLens[q];
+            for (size_t x = 0; okPart && x < b.size(); x++) {
+              bool care = x < 5 + idl || (off + (x - 5 - idl) < val2.masterCare.size() && val2.masterCare[off + (x - 5 - idl)]);
+              if (care && b[x] != rp2.masters[k][x]) okPart = false;
+            }
+          } else if (okPart) {
+            okPart = b == rp2.masters[k];
+          }
+          if (c->log) printf(" part %u alone with the other input \"%s\": prepareMaster -> %s %s (expected %s)\n", (unsigned)k, val2.input.c_str(), rc(r).c_str(), c09::toHex(b).c_str(), c09::toHex(rp2.masters[k]).c_str());
+          if (!okPart) {
+            report(c, string("C09/chain-part-depends-on-earlier-build/") + shapeClass(*d.shape) + "/" + lenModeName(*d.shape),
+                   "part " + std::to_string(k) + " built on its own with input \"" + val2.input + "\" after the parts were built with \"" + val.input + "\": " + rc(r) + " " + c09::toHex(b) + ", expected " + c09::toHex(rp2.masters[k]), cs);
+            break;
+          }
+        }
+      }
       if (allOk && d.shape->write) {
         bool same = joined.size() == val.master.size();
         for (size_t i = 0; same && i < joined.size(); i++) if (val.masterCare[i] && joined[i] != val.master[i]) same = false;
